@@ -361,3 +361,71 @@ def expand_markings_contract():
                     havoc={'expanded': lambda v: Val('triples', z3.FreshConst(TripleSet, 'expanded'))},
                     assumptions=['entries are mappings with a collection under "selectors"; a list of single-selector entries is abstracted to the set of its (kind, marking, selector) triples '
                                  '(order and repetition of entries are not part of the view)'])
+
+
+# ------------------------------------------------------------------ compress_markings: the same triples, one entry per marking (kinds recovered by utils.is_marking)
+ISMARK = z3.Function('utils.is_marking', E.S, z3.BoolSort())
+PairSet = z3.ArraySort(E.S, E.S, z3.BoolSort())
+
+
+def compress_markings_contract():
+    entries = E.Seq(lambda i: Val('gm', i), GM_N)
+    K_, M_, S_ = z3.Bool('k!ct'), z3.String('m!ct'), z3.String('s!ct')
+
+    def contributes(j, k, m, s):
+        return z3.And(GM_SELS(j)[s], z3.If(k, z3.And(GM_HASREF(j), z3.Length(GM_REF(j)) > 0, GM_REF(j) == m), z3.And(GM_HASLANG(j), z3.Length(GM_LANG(j)) > 0, GM_LANG(j) == m)))
+
+    def m_get(x, recv, args, e, p, site):
+        if len(args) != 1 or not z3.is_string_value(args[0].t): raise Unsupported(site + ' get with a non-literal key')
+        key = args[0].t.as_string(); j = recv.t
+        if key == 'selectors': yield p, Val('selset', GM_SELS(j))
+        elif key == 'marking_ref': yield p, E.Opt(z3.Not(GM_HASREF(j)), Str(GM_REF(j)))
+        elif key == 'lang': yield p, E.Opt(z3.Not(GM_HASLANG(j)), Str(GM_LANG(j)))
+        else: raise Unsupported(site + f' get({key!r})')
+
+    def h_defaultdict(x, e, p, site):
+        if [ast.unparse(a) for a in e.args] != ['set']: raise Unsupported(site + ' defaultdict of something else than set')
+        yield p, Val('pairmap', z3.Lambda([M_, S_], z3.BoolVal(False)))
+
+    def sub_slot(x, o, k, p, site):
+        for q, k1 in x.narrow(k, p):
+            if k1.sort != 'str': raise Unsupported(site + ' key sort ' + k1.sort)
+            yield q, Val('mapslot', k1.t)
+
+    def m_update_slot(x, recv, args, e, p, site):
+        # map_[key].update(selectors): the set under `key` (created empty on first access: defaultdict) gains the selectors; every other key is untouched
+        tgt = e.func.value
+        if not (isinstance(tgt, ast.Subscript) and isinstance(tgt.value, ast.Name)) or args[0].sort != 'selset': raise Unsupported(site + ' update shape')
+        name = tgt.value.id; q = p.fork(); old = q.env[name].t
+        q.env[name] = Val('pairmap', z3.Lambda([M_, S_], z3.Or(old[M_, S_], z3.And(M_ == recv.t, args[0].t[S_]))))
+        yield q, NONE
+
+    def comp_final(x, e, p):
+        mp = p.env['map_']
+        if mp.sort != 'pairmap': raise Unsupported('final comprehension over ' + mp.sort)
+        yield p, Val('triples', z3.Lambda([K_, M_, S_], z3.And(K_ == ISMARK(M_), mp.t[M_, S_])))
+
+    def inv(x, env, i, it):
+        m, s = z3.String('m!ci'), z3.String('s!ci'); j = z3.Int('j!ci')
+        return z3.ForAll([m, s], env['map_'].t[m, s] == z3.Exists([j], z3.And(0 <= j, j < i, z3.Or(contributes(j, z3.BoolVal(True), m, s), contributes(j, z3.BoolVal(False), m, s)))))
+
+    def well_formed(a):
+        j = z3.Int('j!wf')
+        return z3.ForAll([j], z3.Implies(z3.And(0 <= j, j < GM_N), z3.And(z3.Implies(z3.And(GM_HASREF(j), z3.Length(GM_REF(j)) > 0), ISMARK(GM_REF(j))),
+                                                                     z3.Implies(z3.And(GM_HASLANG(j), z3.Length(GM_LANG(j)) > 0), z3.Not(ISMARK(GM_LANG(j)))))))
+
+    def ens(a, r):
+        k, m, s = z3.Bool('k!ce'), z3.String('m!ce'), z3.String('s!ce'); j = z3.Int('j!ce')
+        if r.sort == 'none': view = z3.Lambda([K_, M_, S_], z3.BoolVal(False))
+        elif r.sort == 'triples': view = r.t
+        else: return z3.BoolVal(False)
+        return z3.ForAll([k, m, s], view[k, m, s] == z3.Exists([j], z3.And(0 <= j, j < GM_N, contributes(j, k, m, s))))
+    FINAL = ("[{'marking_ref': item, 'selectors': sorted(selectors)} if utils.is_marking(item) else {'lang': item, 'selectors': sorted(selectors)} for item, selectors in map_.items()]")
+    return Contract('stix2/markings/utils.py::compress_markings', props=['C07', 'C13'], params={'granular_markings': entries},
+                    requires=[('length', lambda a: GM_N >= 0), ('marking_ref values are marking-definition ids, lang values are not (what tells the kinds apart in the compressed form)', well_formed)],
+                    ensures=[('the compressed list holds exactly the (kind, marking, selector) triples of the input', ens)],
+                    raises={}, handlers={'collections.defaultdict': h_defaultdict}, comprehensions={FINAL: comp_final},
+                    registry_ext={'methods': {('.get', 'gm'): m_get, ('.update', 'mapslot'): m_update_slot}, 'subscript': {('pairmap', 'str'): sub_slot, ('pairmap', 'opt:str'): sub_slot}},
+                    loops={0: {'kind': 'inv', 'inv': inv}},
+                    havoc={'map_': lambda v: Val('pairmap', z3.FreshConst(PairSet, 'map_'))},
+                    assumptions=['sorted(selectors) holds exactly the selectors of the set; utils.is_marking is a function of the text (it tells a marking-definition id from a language code)'])
